@@ -215,7 +215,10 @@ def _cut_for(eng, s: ast.For, st: State, view: IterView):
     mods |= set(lc.extra_modifies)
     # generalise literal lists before the loop so kinds are stable
     st = generalise(eng, st, mods)
-    ghost0 = {idx_name: IntV(0), "_n": IntV(n)}
+    # `<name>_at_entry`: the value a loop-modified variable had when the loop was reached (ghost, for invariants that
+    # relate the accumulated state to the state before the loop, e.g. `_yield == _yield_at_entry + Seg(i)`)
+    entry = {f"{m}_at_entry": st.vars[m] for m in mods if m in st.vars}
+    ghost0 = {**entry, idx_name: IntV(0), "_n": IntV(n)}
     # 1. init
     for k, inv in enumerate(lc.invariants):
         goal = eng.eval_contract_expr(inv, st, ghost0, where=f"inv{k}")
@@ -229,7 +232,7 @@ def _cut_for(eng, s: ast.For, st: State, view: IterView):
         # the current item is a member of the sequence being iterated (a fact of the theory of sequences
         # that the solvers do not derive from nth by themselves)
         sh = sh.assume(z3.Contains(view.seq, z3.Unit(view.seq[i])))
-    gh = {idx_name: IntV(i), "_n": IntV(n)}
+    gh = {**entry, idx_name: IntV(i), "_n": IntV(n)}
     for inv in lc.invariants:
         sh = sh.assume(eng.eval_contract_expr(inv, sh, gh, where="assume"))
     for hk, hint in enumerate(lc.hints):
@@ -245,7 +248,7 @@ def _cut_for(eng, s: ast.For, st: State, view: IterView):
         for bo in eng.exec_block(s.body, a.state):
             if bo.kind in ("normal", "continue"):
                 check_kinds_stable(eng, sh, bo.state, mods, s.lineno)
-                g2 = {idx_name: IntV(i + 1), "_n": IntV(n)}
+                g2 = {**entry, idx_name: IntV(i + 1), "_n": IntV(n)}
                 for k, inv in enumerate(lc.invariants):
                     goal = eng.eval_contract_expr(inv, bo.state, g2, where=f"inv{k}")
                     eng.oblige("inv-keep", f"{where}.{k}", bo.state, goal, s.lineno)
@@ -257,7 +260,7 @@ def _cut_for(eng, s: ast.For, st: State, view: IterView):
                 outs.append(bo)
     # 3. exit without break
     se = havoc(eng, st, mods, "x")
-    ge = {idx_name: IntV(n), "_n": IntV(n)}
+    ge = {**entry, idx_name: IntV(n), "_n": IntV(n)}
     for inv in lc.invariants:
         se = se.assume(eng.eval_contract_expr(inv, se, ge, where="assume"))
     for hint in lc.exit_hints:
